@@ -13,7 +13,7 @@ import numpy as np
 from harness.core import zlist, natlist
 from harness.impl.crops import py_perm
 
-ARGS = ["q", "b", "z", "a", "m", "c"]       # argument id = index; deliberately unsorted names
+ARGS = ["q", "b", "z", "a", "mu", "chi"]   # argument id = index; deliberately unsorted names, two of several letters
 CONST_ARGS = {"k1": 6, "k2": 7}
 
 
